@@ -324,6 +324,12 @@ func (channel *Channel) handleContentBody(bodyFrame *amqp.Frame) *amqp.Error {
 		return amqp.NewConnectionError(amqp.FrameError, "unexpected content body frame - no header yet", 0, 0)
 	}
 
+	if channel.currentMessage.BodySize+uint64(len(bodyFrame.Payload)) > channel.currentMessage.Header.BodySize {
+		// more content than the header announced: the message would go out as an invalid frame sequence
+		channel.currentMessage = nil
+		return amqp.NewConnectionError(amqp.FrameError, "content body larger than announced in the content header", 0, 0)
+	}
+
 	channel.currentMessage.Append(bodyFrame)
 
 	if channel.currentMessage.BodySize < channel.currentMessage.Header.BodySize {
